@@ -158,11 +158,13 @@ func init() {
 				}
 			}),
 			rule("R36b", "a message is recycled only after its reply was consumed", 4, func(r *Run) {
-				free := []string{"queue.Client.FreeMessage"}
+				free := []string{"queue.Client.FreeMessage", "queue.(*client).FreeMessage"}
 				// client.(*QueueProtocol).send is the send+wait wrapper: its success means the reply was consumed
 				wait := []string{"queue.Client.Wait", "queue.Client.WaitTimeout", "client.(*QueueProtocol).send"}
 				n := 0
-				for _, pp := range []string{"util", "executor", "client", "system/mempool"} {
+				// (package queue itself is included: the bus must never recycle a request on behalf of the requester,
+				// e.g. on a timeout, while a responder may still hold it)
+				for _, pp := range []string{"queue", "util", "executor", "client", "system/mempool"} {
 					pkg := r.W.Pkg(pp)
 					if pkg == nil {
 						r.Unresolved("package " + pp)
